@@ -24,8 +24,7 @@ import (
 var c04Ints = []int{0, 1, 2, 3, 7, -1, 12, -5, 100}
 // (no negative x.5: round() of a negative half is the known divergence c04:round-negative-half)
 var c04Floats = []float64{0.5, 1.25, 2.5, 3.0, 0.125, 10.75, 1500000.5, 0.00001, 2.5e-7, 123456789.125, -1.25, -3.0, 0.1, -0.75, 1e-7}
-// (no double quote: soy.$$escapeHtml writes &quot; where the Go escaper writes &#34; — hand case c04:escapeHtml-double-quote)
-var c04Strs = []string{"", "abc", "<i>x</i>", "a&b", "q's", "é日本", "line1\nline2", "a b c d e f", "0", "</script>", "tab\there", "x y"}
+var c04Strs = []string{"say \"hi\"", "", "abc", "<i>x</i>", "a&b", "q's", "é日本", "line1\nline2", "a b c d e f", "0", "</script>", "tab\there", "x y"}
 
 func c04Value(g *bundleGen, t ty) (interface{}, bool) {
 	r := g.r
@@ -411,7 +410,9 @@ func c04Oracle(c *Case, impl string) *Viol {
 
 // hand cases outside the subset the property quantifies over: ill-typed operands (string and/or, mixed-type
 // equality), an integer beyond 2^53, printing a list.
-var c04Outside = map[string]bool{"c04:print-list": true, "c04:mixed-equality": true, "c04:int-overflow-2^53": true, "c04:and-or-value": true, "c04:switch-mixed": true}
+// escapeUri / escapeJsString: "no directive whose encoding is documented to differ" — the repository's twin test
+// tables document both (soyhtml/exec_test.go escapeUri2 = a%25b+%3E+c, ejs5 = \'\' ; soyjs/exec_test.go = a%25b%20%3E%20c, \x27\x27).
+var c04Outside = map[string]bool{"c04:escapeUri": true, "c04:escapeJsString": true, "c04:print-list": true, "c04:mixed-equality": true, "c04:int-overflow-2^53": true, "c04:and-or-value": true, "c04:switch-mixed": true}
 
 type c04Hand struct {
 	key, src, data string
@@ -452,6 +453,8 @@ var c04Hands = []c04Hand{
 	{"c04:directive-order", "{namespace h}\n/** @param s */\n{template .t}{$s|truncate:4,false|escapeHtml}{/template}\n", `{"s":"a<b>c"}`},
 	{"c04:directive-order", "{namespace h}\n/** @param s */\n{template .t autoescape=\"false\"}{$s|escapeHtml|truncate:4,false}{/template}\n", `{"s":"a<b>c"}`},
 	{"c04:directive-order", "{namespace h}\n/** @param s */\n{template .t}{$s|truncate:4,false}{/template}\n", `{"s":"a<b>c"}`},
+	{"c04:genname-collision", "{namespace h}\n{template .t}{let $x1: 'a' /}{let $a: 1/}{let $b: 1/}{let $c: 1/}{let $d: 1/}{let $e: 1/}{let $f: 1/}{let $g: 1/}{let $h: 1/}{let $i: 1/}{let $x: 'b' /}{$x1}{$x}{$a}{$b}{$c}{$d}{$e}{$f}{$g}{$h}{$i}{/template}\n", `{}`},
+	{"c04:genname-collision", "{namespace h}\n/** @param l */\n{template .t}{let $xIndex2: 'v' /}{foreach $x in $l}{$xIndex2}{index($x)}{/foreach}{let $param4: 'p' /}{call .u}{param a}{$param4}{/param}{/call}{/template}\n/** @param a */\n{template .u}{$a}{/template}\n", `{"l":[7,8]}`},
 	{"c04:undefined-print", "{namespace h}\n/** @param? s */\n{template .t}{$s}{/template}\n", `{}`},
 	{"c04:switch-mixed", "{namespace h}\n/** @param i */\n{template .t}{switch $i}{case '1'}S{case 1}I{default}D{/switch}{/template}\n", `{"i":1}`},
 	{"c04:plural-float", "{namespace h}\n/** @param n */\n{template .t}{msg desc=\"\"}{plural $n}{case 1}one{default}{$n} many{/plural}{/msg}{/template}\n", `{"n":1}`},
